@@ -1783,6 +1783,26 @@ fn emit_fn(ctx: &mut Ctx, d: &FnDir, out: &mut String) {
             sig.generics.gt_token = None;
         }
     }
+    // ---- R22 (opt-in `selfmut`): `&self` becomes `&mut self`. For types that mutate through interior mutability (`RefCell` fields of
+    //      FvmRuntime): with `&mut` the contract can speak about the change; the prelude's RefCell model takes `&mut self` in `replace`.
+    if d.opts.contains_key("selfmut") {
+        let mut n = 0;
+        for inp in sig.inputs.iter_mut() {
+            if let syn::FnArg::Receiver(rc) = inp {
+                if rc.reference.is_some() && rc.mutability.is_none() {
+                    rc.mutability = Some(Default::default());
+                    if let syn::Type::Reference(tr) = &mut *rc.ty {
+                        tr.mutability = Some(Default::default());
+                    }
+                    n += 1;
+                }
+            }
+        }
+        if n == 0 {
+            die(&format!("lost anchor: selfmut on {} but it has no `&self` receiver", d.path));
+        }
+        region_notes.push("[R22 selfmut] receiver `&self` -> `&mut self` (interior mutability made explicit)".to_string());
+    }
     for inp in sig.inputs.iter_mut() {
         if let syn::FnArg::Typed(pt) = inp {
             if let syn::Type::Reference(r) = &mut *pt.ty {
